@@ -5,6 +5,7 @@ applies a stated model on symbolic / abstract arguments.  All of them are part o
 base and are listed in the evidence files.
 """
 import binascii as _binascii
+import csv as _csv
 import builtins
 import datetime as _datetime
 import io as _io
@@ -184,7 +185,7 @@ def _int_shapes(L):
     return _SHAPES[L]
 
 
-def _raw_classes(kind, chain):
+def _raw_classes(kind, chain, ascii_only=False):
     """per character class: the raw element values (before the codec chain) that land in it"""
     tab = rope._chain_table(kind, chain) if chain else list(builtins.range(256))
     if tab is None:
@@ -196,7 +197,8 @@ def _raw_classes(kind, chain):
     if builtins.any(builtins.len(x) != 1 for x in digits):
         return None
     digits = [x[0] for x in digits]
-    return {'digits': digits, 'W': [r for c in _INT_WS for r in inv.get(c, [])], 'plus': inv.get(43, []), 'minus': inv.get(45, []),
+    ws = (9, 10, 11, 12, 13, 32) if ascii_only else _INT_WS
+    return {'digits': digits, 'W': [r for c in ws for r in inv.get(c, [])], 'plus': inv.get(43, []), 'minus': inv.get(45, []),
             'U': inv.get(95, []), 'sup': [r for c in _SUPERSCRIPTS for r in inv.get(c, [])]}
 
 
@@ -212,7 +214,7 @@ def _link_chars(src, key, L):
     if not (todo_int or todo_dig):
         return
     raw_src, chain = src.base
-    cls = _raw_classes(raw_src.kind, chain)
+    cls = _raw_classes(raw_src.kind, chain, getattr(src, 'ascii_only', False))
     if cls is None:
         return
     lo = key[0]
@@ -377,6 +379,23 @@ def sh_int(val=0, base=10):
         if base != 10:
             raise Unsupported('int(rope, base=%r)' % base)
         if val.kind != 't':
+            # int(bytes) reads the bytes as ASCII text (only ASCII white space is stripped): the latin_1 view of the same bytes, with the
+            # outcome constrained to what an ASCII-only numeral can be
+            conc = rope.try_concrete(val)
+            if conc is not None:
+                return builtins.int(conc)
+            ps = rope.nonempty_pieces(val)
+            if len(ps) == 1 and isinstance(ps[0], Opq) and builtins.isinstance(ps[0].length(), builtins.int) and ps[0].length() <= CHAR_LINK_MAX:
+                p = ps[0]
+                chain = p.chain + (('d', 'latin_1'),)
+                key = ('bytes-int', chain)
+                d = p.src.derived.get(key)
+                if d is None:
+                    d = Source('%s|bytes-int' % p.src.name, 't', p.src.length)
+                    d.base = (p.src, chain)
+                    d.ascii_only = True
+                    p.src.derived[key] = d
+                return nondet_int_of_text(d, p.lo, p.hi, p.length())
             raise Unsupported('int() of abstract bytes')
         at = rope.whole_atom(val)
         if isinstance(at, Num) and not at.chain:
@@ -574,7 +593,16 @@ def sh_getitem(obj, key):
 
 # ------------------------------------------------------------------ struct
 
-class StructStub:
+class _LibMeta(type):
+    """stub of a library module: names the stub does not define come from the real module"""
+    def __getattr__(cls, name):
+        if name.startswith('__'):
+            raise AttributeError(name)
+        return getattr(cls._real, name)
+
+
+class StructStub(metaclass=_LibMeta):
+    _real = _struct
     error = _struct.error
     calcsize = staticmethod(_struct.calcsize)
 
@@ -879,7 +907,8 @@ def sh_bytearray(*a, **kw):
     return builtins.bytearray(*a, **kw)
 
 
-class IoStub:
+class IoStub(metaclass=_LibMeta):
+    _real = _io
     BytesIO = RopeFile
     StringIO = _io.StringIO
     SEEK_SET = 0
@@ -887,7 +916,8 @@ class IoStub:
 
 # ------------------------------------------------------------------ binascii
 
-class BinasciiStub:
+class BinasciiStub(metaclass=_LibMeta):
+    _real = _binascii
     Error = _binascii.Error
 
     @staticmethod
@@ -1228,7 +1258,8 @@ class DateTimeLike(metaclass=_DTMeta):
     now = staticmethod(_datetime.datetime.now)
 
 
-class DatetimeStub:
+class DatetimeStub(metaclass=_LibMeta):
+    _real = _datetime
     datetime = DateTimeLike
     date = _datetime.date
     timedelta = _datetime.timedelta
@@ -1244,7 +1275,8 @@ class _Match:
         return dict(self._g)
 
 
-class ReStub:
+class ReStub(metaclass=_LibMeta):
+    _real = _re
     @staticmethod
     def match(pattern, text, flags=0):
         if isinstance(text, Rope):
@@ -1365,7 +1397,8 @@ class _DictReader:
         return iter([{c: self._cell(x) for c, x in r.items()} for r in self.f.rows])
 
 
-class CsvStub:
+class CsvStub(metaclass=_LibMeta):
+    _real = _csv
     DictWriter = _DictWriter
     DictReader = _DictReader
 
